@@ -1467,5 +1467,52 @@ fn main() {
         }
     }
 
+    // =========================================================================================
+    // N. MapValidBasic::drop_none (valid_iter.rs: `self.filter(T::not_none)`) — never compiled into a harness before
+    //    (coverage/UNION.md).  The result is a bare std Filter (`impl Iterator`, not a TrustedLen): at every point of its
+    //    consumption the hint must be (0, Some(source items still to come)) and the items the non-null ones in order.
+    //    EVERY null mask of length 0..maxlen, on Vec<f64> / Vec<Option<i64>> / wrapped VecDeque / Array1, on receivers
+    //    consumed from either end, behind vshift / ffill / vabs stages, and applied twice (through a collection).
+    //    Model: Model/IterAudit.v drop_none (theorems C09_drop_none_*).
+    // =========================================================================================
+    for len in 0..=maxlen {
+        for mask in 0..(1u32 << len) {
+            let xs = series(len, mask);
+            let xo: Vec<Option<i64>> = xs.iter().map(|x| if x.is_nan() { None } else { Some(*x as i64) }).collect();
+            let steps = len + 1;
+            let tags = |be: &str| format!("fn=drop_none be={} len={} nulls={}{}", be, len, mask_name(len, mask), nt(len));
+            let term = || format!("(obs_drop_none 0 {} (IList {}))", coq_nat(steps), cl(&xs));
+            em.case("exact", &tags("vec"), &format!("drop_none on Vec<f64> {:?}", xs), term,
+                || observe_fwd(&|| { let b: BI<f64> = Box::new(xs.titer().drop_none()); b }, steps, 0));
+            em.case("exact", &tags("vec_opt"), &format!("drop_none on Vec<Option<i64>> {:?}", xo), term,
+                || observe_fwd(&|| { let b: BI<Option<i64>> = Box::new(xo.titer().drop_none()); b }, steps, 0));
+            em.case("exact", &tags("deque"), &format!("drop_none on wrapped VecDeque {:?}", xs), term,
+                || { let d = rot_deque(&xs, 1); observe_fwd(&|| { let b: BI<f64> = Box::new(d.titer().drop_none()); b }, steps, 0) });
+            em.case("exact", &tags("nd"), &format!("drop_none on Array1 {:?}", xs), term,
+                || { let a = Array1::from_vec(xs.clone()); observe_fwd(&|| { let b: BI<f64> = Box::new(a.titer().drop_none()); b }, steps, 0) });
+            em.case("exact", &tags("twice"), &format!("drop_none().collect::<Vec<_>>().titer().drop_none() on {:?}", xs),
+                || format!("(obs_drop_none_twice 0 {} (IList {}))", coq_nat(steps), cl(&xs)),
+                || { let v: Vec<f64> = Iterator::collect(xs.titer().drop_none());
+                     observe_fwd(&|| { let b: BI<f64> = Box::new(v.titer().drop_none()); b }, steps, 0) });
+            for &(kf, kb) in &[(1usize, 0usize), (0, 1), (1, 1)] {
+                if kf + kb > len { continue; }
+                em.case("exact", &tags(&format!("pre{}{}", kf, kb)), &format!("drop_none on titer of {:?} after {} next() and {} next_back()", xs, kf, kb),
+                    || format!("(obs_drop_none 0 {} (pre {} {} {}))", coq_nat(steps), coq_nat(kf), coq_nat(kb), cl(&xs)),
+                    || observe_fwd(&|| { let b: BI<f64> = Box::new(pre_iter!(xs, kf, kb).drop_none()); b }, steps, 0));
+            }
+            for n in [-1i32, 1, 2] {
+                em.case("exact", &tags(&format!("vshift{}", n)), &format!("vshift({}, None).drop_none() on {:?}", n, xs),
+                    || format!("(obs_drop_none_res 0 {} (vshift {} None (IList {})))", coq_nat(steps), cz(n as i64), cl(&xs)),
+                    || observe_fwd(&|| { let b: BI<f64> = Box::new(xs.titer().vshift(n, None).drop_none()); b }, steps, 0));
+            }
+            em.case("exact", &tags("ffill"), &format!("ffill(None).drop_none() on {:?}", xs),
+                || format!("(obs_drop_none 0 {} (ffill None (IList {})))", coq_nat(steps), cl(&xs)),
+                || observe_fwd(&|| { let b: BI<f64> = Box::new(xs.titer().ffill(None).drop_none()); b }, steps, 0));
+            em.case("exact", &tags("vabs"), &format!("map(neg).vabs().drop_none() on {:?}", xs),
+                || format!("(obs_drop_none 0 {} (vabs (IMap (fun v => match v with VZ z => VZ (- z) | _ => v end) (IList {}))))", coq_nat(steps), cl(&xs)),
+                || observe_fwd(&|| { let b: BI<f64> = Box::new(xs.titer().map(|v: f64| -v).vabs().drop_none()); b }, steps, 0));
+        }
+    }
+
     em.finish();
 }
